@@ -4,7 +4,7 @@ CONSTANTS
   FracUnits = 4096
   EraSecs = 64
   Epoch <- EpochScaled
-  ForwardOnlyEraUnfold = TRUE
+  ForwardOnlyEraUnfold = FALSE
   RefSecs <- RefFew
   RefNs <- RefNsGen
   Offs <- OffCls
